@@ -283,7 +283,7 @@ pub fn tape_seed(seed: u64, k: u64) -> u64 {
 
 pub fn class_of(c: &FCase) -> String {
     let p1 = c.muts[0].path.as_ref().and_then(|p| p.get(1).copied());
-    let extra = if c.field.ends_with(":bit") { ":bit" } else if c.field.ends_with(":mac") { ":mac" } else if c.field.ends_with("[paired]") { ":paired" } else { "" };
+    let extra = if c.field.ends_with("[pair]") { ":pair" } else if c.field.ends_with(":bit") { ":bit" } else if c.field.ends_with(":mac") { ":mac" } else if c.field.ends_with("[paired]") { ":paired" } else { "" };
     let kind = c.muts[0].node.as_ref().map(|n| if n.changes_count() { n.name() } else { String::new() }).unwrap_or_default();
     format!("{}[{}]{}{}{}", c.label, p1.map(|x| x.to_string()).unwrap_or_default(), extra, if kind.is_empty() { "" } else { ":" }, kind)
 }
@@ -383,4 +383,44 @@ pub fn judge_detection(rep: &mut crate::util::Report, cfgs: &[Config], cases: &[
     }
     let _ = prop;
     j
+}
+
+/// Pairs of bit flips inside one message (two lies that could cancel in an accumulated check).
+pub fn gen_pair_cases(cfgs: &[Config], labels: &[&str], max_bools: usize) -> Result<Vec<FCase>, String> {
+    let mut out = vec![];
+    for (ci, cfg) in cfgs.iter().enumerate() {
+        let sent: Vec<(usize, &MsgRec)> = cfg.honest.msgs.iter().enumerate().filter(|(_, m)| m.from == cfg.corrupted && labels.contains(&m.label.as_str())).collect();
+        for (mi, m) in &sent {
+            let ty = msg_type(&m.label).ok_or("no schema")?;
+            let val = decode_msg(&m.label, &m.bytes)?;
+            let mut bools: Vec<Vec<usize>> = crate::schema::paths(&ty, &val, usize::MAX)
+                .into_iter()
+                .filter(|p| matches!(crate::schema::get(&val, p), Some(Val::Bool(_))))
+                .collect();
+            if bools.len() > max_bools {
+                // keep the first and the last few
+                let tail = bools.split_off(bools.len() - max_bools / 3);
+                bools.truncate(max_bools - tail.len());
+                bools.extend(tail);
+            }
+            for a in 0..bools.len() {
+                for b in a + 1..bools.len() {
+                    let mut v2 = val.clone();
+                    if crate::schema::apply(&ty, &mut v2, &bools[a], &NodeMut::FlipBool) && crate::schema::apply(&ty, &mut v2, &bools[b], &NodeMut::FlipBool) {
+                        out.push(FCase {
+                            cfg: ci,
+                            msgs: vec![*mi],
+                            muts: vec![MsgMut { class: "struct:pair".into(), detail: format!("bits flipped at {:?} and {:?}", bools[a], bools[b]), bytes: Arc::new(encode_vec(&v2)), malformed: false, path: Some(bools[a].clone()), node: Some(NodeMut::FlipBool) }],
+                            label: m.label.clone(),
+                            field: format!("{}[pair]", m.label),
+                            rule: Rule::Always,
+                            to_all: false,
+                            desc: format!("{}: {:?} #{} {}->{}: two bits flipped at {:?} and {:?}", cfg.name, m.label, m.ord, m.from, m.to, bools[a], bools[b]),
+                        });
+                    }
+                }
+            }
+        }
+    }
+    Ok(out)
 }
